@@ -522,6 +522,12 @@ def r5_destinations(cx, mods, classes):
                     # inside the two writers every created path must derive from the destination parameter
                     dstp = params(fn)[1]
                     names = set(x.id for a in list(n.args) + [k.value for k in n.keywords] for x in ast.walk(a) if isinstance(x, ast.Name))
+                    if cn == "call":
+                        # the copy command: cp <source> <destination>, nothing else - an option that stops following links (-a, -d, -P, -R, --no-dereference ...)
+                        # stores the link itself, and the next file saved at that archive path is then written through it, outside the archive
+                        argv = trace(n.args[0], fn) if isinstance(n.args[0], ast.Name) else n.args[0]
+                        okv = isinstance(argv, (ast.List, ast.Tuple)) and len(argv.elts) == 3 and U(argv.elts[2]) == dstp and not any(isinstance(e_, ast.Starred) for e_ in argv.elts)
+                        cx.require(okv, n, "%s copies with 'cp <source> <destination>' and no option (links are followed: a regular file is stored)" % q, construct=short(n, 100))
                     cx.require(dstp in names, n, "%s creates files only at (or beneath the directory of) the destination it was given; a scratch file elsewhere (e.g. the system temp directory) leaves collected content outside the archive when a fault hits before the move" % q,
                                construct="%s in %s" % (short(n, 90), q))
                     continue
